@@ -93,5 +93,14 @@ func (u *URL) UnmarshalJSON(b []byte) (err error) {
 		}
 	}
 
-	return u.UnmarshalText(b[1 : l-1])
+	// Decode the string properly, since encoding/json escapes characters such
+	// as '&', '<', and '>' when marshaling.
+	var s string
+	err = json.Unmarshal(b, &s)
+	if err != nil {
+		// Don't wrap the error, since it's informative enough as is.
+		return err
+	}
+
+	return u.UnmarshalText([]byte(s))
 }
